@@ -380,6 +380,16 @@ def _run_ops(ctx, case, w, uri, master, flags, reopen=True):
                     # the caller's request object serves a second request
                     k = w.key_for_path(request, witness_type=op.get('wt')) if op.get('wt') else w.key_for_path(request)
                     note(k, wt, default[0], op['change'], op['index'])
+            elif name == 'key_for_full_path':
+                # the whole path is named, with the account level of one of the wallet's accounts (not necessarily the
+                # default one): the key is a key of THAT account
+                known = sorted(accounts.get((wt0, net), set()))
+                a = known[op['pick'] % len(known)]
+                full = wu.path_str(wu.single_path(wt0, net, a, op['change'], op['index']))
+                k = w.key_for_path(full)
+                note(k, wt0, a, op['change'], op['index'])
+                if a != default[0]:
+                    flags.add('full_path_other_account')
             elif name == 'keys_for_path':
                 ks = w.keys_for_path([op['change'], op['index']], number_of_keys=op['count'])
                 for j, k in enumerate(ks):
@@ -452,6 +462,8 @@ def _strategy(ctx):
             st.fixed_dictionaries({'op': st.just('new_account'), 'wt': other}),
             st.fixed_dictionaries({'op': st.just('key_for_path'), 'change': st.sampled_from([0, 1]),
                                    'index': st.sampled_from([0, 1, 5, 7, 100])}),
+            st.fixed_dictionaries({'op': st.just('key_for_full_path'), 'pick': st.integers(0, 3),
+                                   'change': st.sampled_from([0, 1]), 'index': st.sampled_from([0, 2, 5, 9, 40])}),
             st.fixed_dictionaries({'op': st.just('keys_for_path'), 'change': st.sampled_from([0, 1]),
                                    'index': st.sampled_from([0, 3, 20]), 'count': st.integers(1, 3)}),
             st.just({'op': 'reopen'}),
